@@ -56,3 +56,29 @@ pub fn fnv(bytes: &[u8]) -> u64 {
     }
     h
 }
+
+/// Opt-in stderr logger for the trackers' `log` output (VERIF_LOG=error|warn|info|debug); diagnostics only, never a verdict.
+pub fn init_logger_from_env() {
+    struct L;
+    impl log::Log for L {
+        fn enabled(&self, _: &log::Metadata) -> bool {
+            true
+        }
+        fn log(&self, r: &log::Record) {
+            eprintln!("[{} {}] {}", r.level(), r.target(), r.args());
+        }
+        fn flush(&self) {}
+    }
+    static LOGGER: L = L;
+    if let Ok(v) = std::env::var("VERIF_LOG") {
+        let lvl = match v.as_str() {
+            "error" => log::LevelFilter::Error,
+            "warn" => log::LevelFilter::Warn,
+            "debug" => log::LevelFilter::Debug,
+            _ => log::LevelFilter::Info,
+        };
+        if log::set_logger(&LOGGER).is_ok() {
+            log::set_max_level(lvl);
+        }
+    }
+}
